@@ -290,4 +290,5 @@ RULES = [
     ("R-C07-3", "Store::new reloads the registry from an unbounded zero-context scan guarded by topic == xs.context before returning", r3),
     ("R-C07-4", "only audited store functions write Store.contexts, each under the xs.context guard with that frame's id", r4),
     ("R-C07-5", "every function that inserts / removes the primary record maintains the registry (imports included)", r5),
+    ("R-C07-6", "a registration is stored whatever ttl it was submitted with: append decides `store or not` after the xs.context branch forced the ttl to Forever (shared with R-C09-1)", lambda run: __import__("rules.C09", fromlist=["x"]).rule_ttl_decision_final(run)),
 ]
